@@ -1,6 +1,7 @@
 (* Driver for the expander cluster: ExpandSpec and friends on in-memory documents. *)
 From Coq Require Import List String Ascii ZArith Bool.
-From Spec Require Import Base.Json Base.Url Codec.Types Codec.Gen_Tables Codec.Codec Expand.Expand Extract.DriverBase.
+From Spec Require Import Base.Json Base.Url Codec.Types Codec.Gen_Tables Codec.Codec Expand.Expand
+  Expand.ExpandSimCheck Expand.ExpandCycle Expand.ExpandTermG Expand.ExpandComplete Extract.DriverBase.
 Import ListNotations.
 Local Open Scope string_scope.
 
@@ -70,6 +71,26 @@ Definition run_expand (c : json) : json :=
     | Failed _ => JObj [("err", JBool true); ("out", JNull)]
     | OOF => JObj [("oof", JBool true)]
     | Unsup => JObj [("unsupported", JBool true)]
+    end
+  else if op =? "domain" then
+    (* does this generated graph satisfy the hypotheses of the C02/C03/C04/C08/C18 theorems?  The schema graph reachable from
+       the definitions of the root, with the root taken in the typed form the expander holds it in *)
+    match assoc root all with
+    | Some d => match norm gen_env false d (TNamed "Swagger") with
+                | ROk nd =>
+                    let docs' := (root, nd) :: filter (fun kv => negb (String.eqb (fst kv) root)) served in
+                    let starts := match jfield "definitions" nd with Some (JObj ds) => map (fun kv => (root, snd kv)) ds | _ => [] end in
+                    let nodes := collect gen_env docs' "/" 600 starts [] in
+                    let o := opts_of c in
+                    let ordered := topo gen_env docs' "/" 60 nodes [] in
+                    JObj [("domain", JBool true); ("nodes", JNum (Z.of_nat (List.length nodes)) 0);
+                          ("refs", JNum (Z.of_nat (List.length (refs_of nodes))) 0);
+                          ("check_nodes", JBool (check_nodes gen_env docs' "/" o root "" nodes));
+                          ("resolvable", JBool (check_resolvable gen_env docs' "/" o root "" nodes));
+                          ("acyclic", JBool (rank_check gen_env docs' "/" ordered && canon_check ordered))]
+                | _ => JObj [("domain", JBool false)]
+                end
+    | None => jerr "no root document"
     end
   else jerr "unknown op".
 
